@@ -3,5 +3,5 @@ CONSTANTS
   FinalRule = "total_positive"
   BCfgSet <- Cfgs
 INVARIANTS OrderInv DoneInv
-PROPERTY Terminates
+PROPERTIES Terminates RefinesOrderedRows
 CHECK_DEADLOCK FALSE
